@@ -694,3 +694,7 @@ mod test {
         assert!(cb.packets.is_empty());
     }
 }
+
+#[cfg(any(kani, libtw2_verif))]
+#[path = "/verif/kani/net_net.rs"]
+mod verif_kani;
